@@ -1,5 +1,6 @@
 """Per-process event loop and cooperative loopback address / UDP port-block allocation."""
 import asyncio
+import atexit
 import fcntl
 import os
 import tempfile
@@ -45,6 +46,7 @@ def slot():
             fh.close()
             continue
         _SLOT, _SLOT_FH = (i, os.getpid()), fh
+        atexit.register(fh.close)
         return i
     raise HarnessError("no free loopback slot (too many concurrent checks)")
 
